@@ -10,6 +10,7 @@ mcvars == <<vars, hist>>
 Clones0 == <<>>
 Clones1 == <<"k1">>
 Clones2 == <<"k1", "k2">>
+Clones3 == <<"k1", "k2", "k3">>
 
 SendersJson == IF senders = NoEntry THEN [ctr |-> None, sess |-> None, val |-> -1]
                ELSE [ctr |-> senders.ctr, sess |-> senders.sess, val |-> ctr[senders.ctr]]
@@ -24,18 +25,27 @@ Log(a, p, k) == hist' = Append(hist, [a |-> a, p |-> p, k |-> k, st |-> StateJso
 
 MCInit == Init /\ hist = <<>>
 
+\* one named wrapper per action (TLC reports coverage per name)
+DoReadSenders(s) == ReadSenders(s) /\ Log("ReadSenders", s, "")
+DoCloneGuard(s) == CloneGuard(s) /\ Log("CloneGuard", s, "")
+DoAcquireWrite(s) == AcquireWrite(s) /\ Log("AcquireWrite", s, "")
+DoCallSubscribe(s) == CallSubscribe(s) /\ Log("CallSubscribe", s, "")
+DoInsertSenders(s) == InsertSenders(s) /\ Log("InsertSenders", s, "")
+DoActorStep == ActorStep /\ Log("ActorStep", "", "")
+DoFetchSub(h) == FetchSub(h) /\ Log("FetchSub", h, "")
+DoSendUnsub(h) == SendUnsub(h) /\ Log("SendUnsub", h, "")
+DoCloneHandle(h, k) == CloneHandle(h, k) /\ Log("CloneHandle", h, k)
+
 MCNext ==
-    \/ \E s \in Proc :
-          \/ ReadSenders(s) /\ Log("ReadSenders", s, "")
-          \/ CloneGuard(s) /\ Log("CloneGuard", s, "")
-          \/ AcquireWrite(s) /\ Log("AcquireWrite", s, "")
-          \/ CallSubscribe(s) /\ Log("CallSubscribe", s, "")
-          \/ InsertSenders(s) /\ Log("InsertSenders", s, "")
-    \/ ActorStep /\ Log("ActorStep", "", "")
-    \/ \E h \in HandleId :
-          \/ FetchSub(h) /\ Log("FetchSub", h, "")
-          \/ SendUnsub(h) /\ Log("SendUnsub", h, "")
-    \/ \E h \in HandleId, k \in CloneIds : CloneHandle(h, k) /\ Log("CloneHandle", h, k)
+    \/ \E s \in Proc : DoReadSenders(s)
+    \/ \E s \in Proc : DoCloneGuard(s)
+    \/ \E s \in Proc : DoAcquireWrite(s)
+    \/ \E s \in Proc : DoCallSubscribe(s)
+    \/ \E s \in Proc : DoInsertSenders(s)
+    \/ DoActorStep
+    \/ \E h \in HandleId : DoFetchSub(h)
+    \/ \E h \in HandleId : DoSendUnsub(h)
+    \/ \E h \in HandleId, k \in CloneIds : DoCloneHandle(h, k)
 
 MCSpec == MCInit /\ [][MCNext]_mcvars
 
